@@ -1,5 +1,5 @@
 (* C16 — no message content can crash the client; colouring never alters text.  Statements only. *)
-From DT Require Import Lib.Bytes Lib.Split Gen.Consts Model.C16_Color Proofs.C16_Color.
+From DT Require Import Lib.Bytes Lib.Split Gen.Consts Model.C16_Color Proofs.C16_Color Proofs.C16_Strip.
 
 (* Colouring is lossless: whenever a message is rendered, the text parts of the rendering,
    concatenated, are exactly the message - codes are only inserted, no byte of any field,
@@ -24,15 +24,19 @@ Theorem C16_no_panic_mapr_handler : forall s buf nl out, mapr_write true buf nl 
 Proof. exact mapr_write_fixed_total. Qed.
 Print Assumptions C16_no_panic_mapr_handler.
 
-(* Full stripping statement (not proved in general): removing the SGR sequences from the coloured
-   rendering gives the same bytes as removing them from the message. *)
+(* Removing the SGR sequences from the coloured rendering gives the same bytes as removing them from
+   the message - for EVERY message: the painters insert only complete sequences, always in front of a
+   byte that can neither continue nor close a sequence the scanner may be in (ESC, '|', newline) or at
+   the end, so no inserted code ever merges with message bytes (a partial escape sequence at the end of
+   a field included). *)
 Definition C16_strip_full : Prop :=
   forall m segs, colorfy true m = COk segs -> strip_sgr (flatten segs) = strip_sgr m.
+Theorem C16_strip : C16_strip_full.
+Proof. exact strip_full. Qed.
+Print Assumptions C16_strip.
 
-(* Proved on the finite domain of all messages of at most 5 symbols over
-   {REMOTE, SERVER, '|', '\n', ESC, '[', '3', 'm', 'a'} (66 430 messages, kernel evaluation):
-   every byte the painters and the stripper treat specially, partial escape sequences at field
-   boundaries included. *)
+(* kept as an independent cross-check of the statement: all 66 430 messages of at most 5 symbols over
+   {REMOTE, SERVER, '|', newline, ESC, '[', '3', 'm', 'a'} by kernel evaluation *)
 Theorem C16_strip_partial : forall m, In m (words 5) -> strip_ok m = true.
 Proof. exact (proj1 (forallb_forall strip_ok (words 5)) strip_sweep_5). Qed.
 Print Assumptions C16_strip_partial.
